@@ -141,25 +141,52 @@ def literals(ast: dict) -> list[dict]:
     return recs
 
 
+def instances(ast: dict) -> dict:
+    """macro name -> number of times its body is inlined into the compiled program (calls from routines, and calls from
+    other macros times the instances of those)"""
+    sites: Counter = Counter()
+    for _args, place, where, called in arglists(ast):
+        if place == "macro_call_arg":
+            sites[(where, called)] += 1
+    memo: dict = {}
+
+    def inst(m: str, depth: int = 0) -> int:
+        if m in memo:
+            return memo[m]
+        if depth > 20:
+            return 0
+        n = sum(cnt * (1 if w is None else inst(w, depth + 1)) for (w, callee), cnt in sites.items() if callee == m)
+        memo[m] = n
+        return n
+    return {m["name"]: inst(m["name"]) for m in ast.get("macros", [])}
+
+
 def expected_copies(ast: dict, rc: dict) -> int:
     """how many parameters of the compiled program stem from this literal"""
     macros = {m["name"]: m for m in ast.get("macros", [])}
-    calls: Counter = Counter()
-    for s in all_stmts({"routines": ast["routines"], "macros": []}):
-        if s["t"] == "macrocall":
-            calls[s["name"]] += 1
+    inst = instances(ast)
     if rc["place"] == "macro_call_arg":
         m = macros[rc["called"]]
         if rc["arg_index"] >= len(m["params"]):
             return 0
         p = m["params"][rc["arg_index"]]
         uses = 0
-        for args, _pl, where, _c in arglists({"routines": [], "macros": [m]}):
-            uses += sum(1 for a in args if a["k"] == "var" and a["v"] == p)
-        return uses * (calls[rc["in_macro"]] if rc["in_macro"] else 1)
+        for args, pl, _where, _c in arglists({"routines": [], "macros": [m]}):
+            if pl != "macro_call_arg":
+                uses += sum(1 for a in args if a["k"] == "var" and a["v"] == p)
+        return uses * (inst[rc["in_macro"]] if rc["in_macro"] else 1)
     if rc["in_macro"]:
-        return calls[rc["in_macro"]]
+        return inst[rc["in_macro"]]
     return 1
+
+
+def nest_macros(r: random.Random, g: ProgGen, ast: dict) -> None:
+    """a macro that calls another macro of the same file (fresh arguments, no parameter forwarding)"""
+    ms = ast.get("macros", [])
+    if len(ms) >= 2 and r.random() < 0.6:
+        caller, callee = ms[1], ms[0]
+        args = [g.arg() for _ in callee["params"]]
+        caller["body"].insert(r.randint(0, len(caller["body"])), {"t": "macrocall", "name": callee["name"], "args": args, "trailing_comma": False})
 
 
 def gen_case(rng: random.Random, cfgs: list, i: int) -> dict:
@@ -170,6 +197,7 @@ def gen_case(rng: random.Random, cfgs: list, i: int) -> dict:
     ast = g.program()
     if not cfg.coro:
         add_macros(g, ast)
+        nest_macros(r, g, ast)
     inject(r, ast, r.choice([0.2, 0.4, 0.7]))
     return {"ast": ast, "style": r.choice(["random", "random", "random", "dense", "canonical"]), "ls": r.getrandbits(30), "stats": g.stats}
 
